@@ -340,9 +340,11 @@ def run_taggrammar(case):
         shapes.append([["t", "v", x]])
         shapes.append([["e", "v"], ["t", x, x]])
     shapes += [[[]], [], [["t"]], [[""]], [["", ""]], [["t", "v"], []]]
+    # members of tags that are not arrays at all (served verbatim if accepted)
+    shapes += [["abc"], ["t", "v"], [5], [None], [True], [{"t": "v"}], [["t", "v"], "x"], [["t", "v"], 7], "abc", {"t": "v"}, 5, None]
     for k, tags in enumerate(shapes):
         try:
-            ev = make_event("A", 1, 2000 + k, tags, "g")
+            ev = make_event("A", 1, 2000 + k, tags, "g", raw_tags=True)
         except Exception:
             continue
         label = "tags=%s" % json.dumps(tags)[:60]
